@@ -80,7 +80,12 @@ func genC16B(r *h.Rng, tier string, idx int) *h.Plan {
 			// a removal that arrives while the job is being delivered (the work
 			// loop is inside its write transaction): the job has fired for the
 			// last time
-			p.Ops = append(p.Ops, h.Op{K: "ambush", Loc: r.Pick(accounts), Id: r.Pick(ids)})
+			op := h.Op{K: "ambush", Loc: r.Pick(accounts), Id: r.Pick(ids)}
+			if r.Bool() {
+				// ... and the same id is added again at once, with another schedule
+				op.S = r.Pick([]string{"*/3 * * * * * *", "4s", "*/7 * * * * * *"})
+			}
+			p.Ops = append(p.Ops, op)
 		}
 		sleep(50, 4000)
 	}
@@ -127,6 +132,7 @@ func execC16B(t *testing.T, plan *h.Plan, trace bool) *h.Result {
 		var regs []*croltReg
 		cur := map[string]*croltReg{}
 		ambush := map[string]bool{}        // armed: remove the job while its next delivery is in progress
+		ambushReadd := map[string]string{} // ... and add the id again with this expression
 		ambushDone := make(chan error, 64) // results of those removals
 		ambushOut := 0                     // removals started and not yet collected (guarded by mu)
 		var liveCron *crolt.Cron
@@ -139,6 +145,8 @@ func execC16B(t *testing.T, plan *h.Plan, trace bool) *h.Result {
 					delete(ambush, key)
 					g.removed = time.Now().Add(time.Nanosecond)
 					cc, acct, id, gg := liveCron, g.acct, g.id, g
+					readd := ambushReadd[key]
+					delete(ambushReadd, key)
 					ambushOut++
 					go func() {
 						err := cc.Delete(acct, id)
@@ -147,6 +155,20 @@ func execC16B(t *testing.T, plan *h.Plan, trace bool) *h.Result {
 							mu.Lock()
 							gg.removed = time.Time{}
 							mu.Unlock()
+						} else if readd != "" {
+							now := time.Now()
+							if cc.Add(&crolt.Job{Account: acct, Id: id, Expression: readd, Method: "GET", URL: "http://stub/" + key}) == nil {
+								g2 := &croltReg{acct: acct, id: id, expr: readd, at: now}
+								if d, perr := time.ParseDuration(readd); perr == nil {
+									g2.oneShot, g2.due = true, now.Add(d)
+								} else {
+									g2.cx = cronexpr.MustParse(readd)
+								}
+								mu.Lock()
+								regs = append(regs, g2)
+								cur[key] = g2
+								mu.Unlock()
+							}
 						}
 						ambushDone <- err
 					}()
@@ -309,6 +331,7 @@ func execC16B(t *testing.T, plan *h.Plan, trace bool) *h.Result {
 				mu.Lock()
 				if g := cur[key]; g != nil && g.removed.IsZero() {
 					ambush[key] = true
+					ambushReadd[key] = op.S
 				}
 				mu.Unlock()
 			case "get":
